@@ -132,6 +132,9 @@ type Engine struct {
 	structIDs map[*types.Struct]string
 	epochCtr int
 	heapDecls []Def
+	hoisted map[ast.Expr]Value
+	quantVars map[types.Object]bool
+	strLens map[string]int64
 }
 
 type pkgCtx struct {
@@ -147,7 +150,7 @@ func newEngine(p *Program) *Engine {
 }
 
 func newEngine0(p *Program) *Engine {
-	e := &Engine{heapSyms: map[string]T{}, heapKeySeen: map[string]bool{}, structIDs: map[*types.Struct]string{}, prog: p, declared: map[string]bool{}, typeIDs: map[string]int{}, strLits: map[string]T{},
+	e := &Engine{strLens: map[string]int64{}, heapSyms: map[string]T{}, heapKeySeen: map[string]bool{}, structIDs: map[*types.Struct]string{}, prog: p, declared: map[string]bool{}, typeIDs: map[string]int{}, strLits: map[string]T{},
 		globals: map[types.Object]Value{}, assumptions: map[string]bool{}, funcsUnder: map[string]bool{}, uf: map[string]string{}}
 	return e
 }
@@ -455,6 +458,9 @@ func (e *Engine) symbolic(st *State, prefix string, t types.Type) Value {
 		cp := e.fresh(prefix+"_cap", SInt)
 		e.assume(st, And(Ge(blk, I(0)), Lt(blk, st.alloc), Ge(off, I(0)), Ge(ln, I(0)), Le(ln, cp), Le(cp, I(1<<40)),
 			Le(off, I(1<<40)), Implies(Eq(blk, I(0)), And(Eq(ln, I(0)), Eq(cp, I(0)), Eq(off, I(0))))), "slice well-formed")
+		if isByteLike(u.Elem()) {
+			e.bytesAreBytes(st, blk)
+		}
 		return SliceV{blk, off, ln, cp}
 	case *types.Interface:
 		r := e.fresh(prefix, SInt)
@@ -473,6 +479,18 @@ func (e *Engine) symbolic(st *State, prefix string, t types.Type) Value {
 		return sv
 	}
 	return IntV{e.fresh(prefix, SInt)}
+}
+
+// bytesAreBytes: every cell of a block viewed as []byte / [n]byte holds a byte (typed memory).
+func (e *Engine) bytesAreBytes(st *State, blk T) {
+	if e.quant > 0 {
+		return
+	}
+	e.nsym++
+	v := fmt.Sprintf("k!%d", e.nsym)
+	k := T{v, SInt}
+	c := Sel(Sel(st.Mem, blk), k)
+	e.assume(st, Forall([]string{v}, And(Le(I(0), c), Le(c, I(255)))), "typed memory: bytes of a byte block")
 }
 
 // allocBlock reserves n consecutive addresses and returns the first.
